@@ -274,6 +274,7 @@ fn exec_e4(j: &J) -> Result<RunOut, String> {
         max_step_size: 0.0,
         convergence: None,
         stale_output: false,
+        out_fault: "none".into(),
         log_level: 0,
     };
     match (score_of_json(&rs, text.as_bytes()), r.final_score_text.as_ref().and_then(|t| t.parse::<f64>().ok())) {
